@@ -89,8 +89,24 @@ func (r *Result) String() string {
 	return fmt.Sprintf("%d bytes then %v", len(r.Plain), r.ReadErr)
 }
 
+// Consumption modes for the bufSize argument of Decrypt: a positive value is
+// the size of the buffer handed to Read in a loop; CopyMode drains the reader
+// with io.Copy (which uses the reader's own WriteTo if it has one);
+// ReadAllMode uses io.ReadAll.
+const (
+	CopyMode    = -1
+	ReadAllMode = -2
+)
+
+// onlyWriter hides any ReaderFrom of the buffer so io.Copy must use the
+// source's WriteTo or plain Reads.
+type onlyWriter struct{ w io.Writer }
+
+func (o onlyWriter) Write(p []byte) (int, error) { return o.w.Write(p) }
+
 // Decrypt runs age.Decrypt over src (through armor.NewReader when asked) and
-// reads to the end with the given buffer size, then probes stickiness.
+// reads to the end with the given buffer size or consumption mode, then
+// probes stickiness.
 func Decrypt(src io.Reader, armored bool, bufSize int, ids ...age.Identity) *Result {
 	if armored {
 		src = armor.NewReader(src)
@@ -107,6 +123,31 @@ func Decrypt(src io.Reader, armored bool, bufSize int, ids ...age.Identity) *Res
 		return res
 	}
 	res.GotRdr = true
+	if bufSize == CopyMode || bufSize == ReadAllMode {
+		var out bytes.Buffer
+		var err error
+		if bufSize == CopyMode {
+			_, err = io.Copy(onlyWriter{&out}, r)
+		} else {
+			var b []byte
+			b, err = io.ReadAll(r)
+			out.Write(b)
+		}
+		res.Plain = out.Bytes()
+		if err == nil {
+			err = io.EOF // both helpers report a clean end as nil
+		}
+		res.ReadErr = err
+		probe := make([]byte, 16)
+		res.StickyOK = true
+		for i := 0; i < 2; i++ {
+			n, e := r.Read(probe)
+			if n != 0 || e == nil || (res.ReadErr == io.EOF) != (e == io.EOF) {
+				res.StickyOK = false
+			}
+		}
+		return res
+	}
 	if bufSize <= 0 {
 		bufSize = 32 * 1024
 	}
